@@ -19,19 +19,19 @@
        - tie of the two measures: size <= G <= 64 * size for the Coq node counts size_fcprog,
          size_cprog, fs_wprog, ax_size_prog                                                [BAD tie]
        - PROVED bounds (Props/C19.v), evaluated on the REAL outputs:
+           C19_focus_size_partial  fs_wprog focused <= 4 * c_wprog core  (proved up to the renaming pass uniquify)  [VIOL class=proved-bound:focus]
            C19_shrink_size     ax_size shr <= w * ((2 + X*(2+A)) + 2*(1+X)*w), w = fs_wprog focused   [VIOL class=proved-bound:shrink]
            C19_linearize_size  ax_size lin <= 2 * ax_size shr + 3 * stmts shr * (1 + width shr)     [VIOL class=proved-bound:linearize]
        - PROVED shape of the code-generation bound with the calibrated (not proved) unit cost K = 16:
            instructions <= 16 * cg_bound_defs lin   for x86-64 and AArch64                  [VIOL class=codegen-bound:<arch>]
        - stated (unproved or partly proved) polynomial bounds with calibrated constants:
            size core    <= 12 * size checked * (1 + vars)                                   [VIOL class=size-ratio:fun2core]
-           size focused <= 6 * size core                                                   [VIOL class=size-ratio:focus]
            size shrunk  <= 8 * (1 + xtors) * size focused * (1 + width)                      [VIOL class=size-ratio:shrink]
          where vars = largest number of parameters + binders of a source definition, xtors = largest
          number of xtors of a declared type, width = ax_width_prog of the shrunk program.
        Tags: nt, the label, ratio buckets. *)
 From Coq Require Import List ZArith NArith String Bool.
-From SCC Require Import Base.Sexp Lang.SynUtil Lang.FunSyn Lang.CoreSyn Lang.AxSyn Lang.AxSize Lang.FsSize
+From SCC Require Import Base.Sexp Lang.SynUtil Lang.FunSyn Lang.CoreSyn Lang.AxSyn Lang.AxSize Lang.FsSize Lang.CoreSize
      Model.RunBase Model.Fun2Core Model.SizeDefs.
 Import ListNotations.
 Open Scope string_scope.
@@ -158,7 +158,7 @@ Definition prog_case (label : string) (k : N) (gs codes vals : list sexp) : verd
           if shr_bound <? s_s then VViol ("class=proved-bound:shrink size=" ++ n_to_string s_s ++ " bound=" ++ n_to_string shr_bound ++ info)
           else if lin_bound <? s_l then VViol ("class=proved-bound:linearize size=" ++ n_to_string s_l ++ " bound=" ++ n_to_string lin_bound ++ info)
           else if 12 * s_f * (1 + vars) <? s_c then VViol ("class=size-ratio:fun2core source=" ++ n_to_string s_f ++ " vars=" ++ n_to_string vars ++ " core=" ++ n_to_string s_c ++ info)
-          else if 6 * s_c <? s_fs then VViol ("class=size-ratio:focus core=" ++ n_to_string s_c ++ " focused=" ++ n_to_string s_fs ++ info)
+          else if 4 * c_wprog pc <? s_fs then VViol ("class=proved-bound:focus core=" ++ n_to_string (c_wprog pc) ++ " focused=" ++ n_to_string s_fs ++ info)
           else if 8 * (1 + xt) * s_fs * (1 + width) <? s_s then VViol ("class=size-ratio:shrink focused=" ++ n_to_string s_fs ++ " shrunk=" ++ n_to_string s_s ++ info)
           else
           match codes with
